@@ -60,7 +60,7 @@ type c18Scenario struct {
 	Restore bool `json:"restore,omitempty"`
 }
 
-var c18KeyPool = []string{"{t}x", "y{t}", "{t}{u}", "{}{t}", "{{t}}", "}{t}", "plain", "{u}z", "{t", "t}{"}
+var c18KeyPool = []string{"{t}x", "y{t}", "{t}{u}", "{}{t}", "{{t}}", "}{t}", "plain", "{u}z", "{t", "t}{", "\u7528\u6237:1", "{\u8ba2\u5355}x", "caf\xe9", "{\xff\x80}y"}
 
 // c18Commands returns the stream commands of a unit and, per command, its keys.
 func c18Commands(u c18Unit) (cmds [][]string, keys [][]string, txn bool) {
@@ -487,7 +487,7 @@ func runC18(t *testing.T, rep *mc.Reporter) {
 	pool := c18KeyPool
 	modes := []biCfg{{"sync", 2}, {"pipeline", 2}, {"parallel", 2}}
 	if tier != "thorough" {
-		pool = []string{"{t}x", "y{t}", "{t}{u}", "{}{t}", "{{t}}", "plain", "{u}z"}
+		pool = []string{"{t}x", "y{t}", "{t}{u}", "{}{t}", "{{t}}", "plain", "{u}z", "{\u8ba2\u5355}x", "caf\xe9"}
 	}
 	var units []c18Unit
 	for _, k := range pool {
